@@ -92,6 +92,7 @@ pub fn cases(tier: Tier, seed: u64) -> Vec<Case> {
         ("conv-conv/0..0", Shape::Triple(1, 2, 2), vec![L::Conv(1, (3, 3), (1, 1), (1, 1), (1, 1), Linear), L::Conv(1, (2, 2), (1, 1), (0, 0), (1, 1), Linear)], 0, 0),
         ("conv-pool-dense/0..1", Shape::Triple(1, 2, 2), vec![L::Conv(1, (3, 3), (1, 1), (1, 1), (1, 1), Linear), L::Pool((1, 1), (1, 1)), L::Dense(1, Linear, false)], 0, 1),
         ("dense2/0..0-last", Shape::Single(2), vec![L::Dense(2, Linear, true)], 0, 0),
+        ("conv2ch-dense/0..0", Shape::Triple(2, 2, 2), vec![L::Conv(2, (3, 3), (1, 1), (1, 1), (1, 1), Linear), L::Dense(1, Linear, true)], 0, 0),
     ];
     let mut out = Vec::new();
     let mut n = 0u64;
